@@ -448,6 +448,46 @@ theorem C10_failed_start_restartable (o : Bool) (s s' : St) (h : Reach o s) (hs 
   simp_all [SPc.inStarting, SPc.owner, LPc.alive, LPc.working, PPc.alive, SrcState.running, run, step]
   grind
 
+/-- **C10_failed_startrun_restartable**: the Start call that fails AFTER `RunDoneActivate` (in `StartRun`) undoes the
+activation with `RunDoneDeactivate`: before that step the wait group is 1 and the state Active (or Stopping, if a
+Stop came in); after it the source is Inactive, the wait group is 0, the run-done channel is closed (`runOver`),
+no core loop or producer exists, no resources are held, and the next Start call is accepted.  (A failure path
+that only reset the state here would leave `wg = 1`: `lc_inv` — counter 1 iff Active/Stopping — would break.) -/
+theorem C10_failed_startrun_restartable (o : Bool) (s s' : St) (h : Reach o s)
+    (hs : step s .starterDeactivate = some s') :
+    s.wg = 1 ∧ s.sp = .runFailing ∧
+    s'.st = .inactive ∧ s'.sp = .idle ∧ s'.lp = .off ∧ ¬ s'.pp.alive ∧ s'.wg = 0 ∧ s'.runOver = true ∧
+      s'.res = false ∧ s'.crashed = false ∧
+      ∃ s'', run s' [.callStart, .startOk] = some s'' ∧ s''.sp = .starting := by
+  have hg := lc_inv o s h
+  obtain ⟨st, sEnter, sp, kEnter, kWait, kClean, lp, pp, abortClosed, nbClosed, wg, writing, res, opens, crashed,
+    fuel0, flag, rEnter, rSend, rWait, runOver, stopsDone⟩ := s
+  obtain ⟨h1, h2, h3, h4, h5, h6, h7, h8, h9, h10, h11, h12, h13⟩ := hg
+  dsimp only at h1 h2 h3 h4 h5 h6 h7 h8 h9 h10 h11 h12 h13
+  lc_open hs
+  all_goals simp only [deactivate]
+  all_goals split
+  all_goals simp_all [SPc.inStarting, SPc.owner, LPc.alive, LPc.working, PPc.alive, SrcState.running, run, step]
+  all_goals grind
+
+/-- after ANY failed Start call — before or after the activation — the completion barrier is released:
+counter 0 in state Inactive (what the harness observes on the real object after every failed Start) -/
+theorem C10_failed_start_barrier_released (o : Bool) (s s' : St) (h : Reach o s)
+    (hs : step s .setInactive = some s' ∨ step s .starterDeactivate = some s') :
+    s'.st = .inactive ∧ s'.wg = 0 := by
+  rcases hs with hs | hs
+  · have := C10_failed_start_restartable o s s' h hs
+    exact ⟨this.1, this.2.2.2.2.1⟩
+  · have := C10_failed_startrun_restartable o s s' h hs
+    exact ⟨this.2.2.1, this.2.2.2.2.2.2.1⟩
+
+/-- a StartRun failure followed by a successful Start and a Stop that returns is a run of the model -/
+example : ∃ s, runE (init false) [.callStart, .startOk, .sampled, .chans, .prepared 0, .activate, .startRunFailed,
+    .starterDeactivate, .callStart, .startOk, .sampled, .chans, .prepared 0, .activate, .runStarted, .loopStart,
+    .callStop, .stopSwitched, .abortSeen, .gotClosed, .loopDeactivate, .stopWaited, .stopCleaned] = some s ∧
+    (decide (s.st = .inactive ∧ s.wg = 0 ∧ stoppers s = 0 ∧ s.stopsDone = 1)) = true :=
+  exists_of_run _ _ (by decide)
+
 /-! ### Non-vacuity -/
 
 /-- a run with two concurrent Stop callers racing the producer's shut-down satisfies E -/
